@@ -26,15 +26,17 @@ static struct block *il_stops[IL_NSTOP];   /* harness-defined: stop when control
 /* CBMC: instruction arrays (struct array of struct inst *) are grown with realloc(); pointers stored into the byte
  * array CBMC's realloc model returns are read back as byte_extract expressions, which makes every in->kind symbolic
  * (148k symex steps per interpreted instruction, measured).  This stub hands out typed pointer arrays instead: the
- * first allocation of an array is 256 bytes (util.c:arrayadd), growth beyond that is cut (path ends).  Replays use
+ * rows of 128 pointers; arrayadd's doubling (256, 512, 1024 bytes) grows in place, beyond that the path ends.  Replays use
  * the real realloc. */
 #if !defined(REPLAY) && !defined(IL_NO_POOL)
 #ifndef IL_NPOOL
 #define IL_NPOOL 40
 #endif
-static void *il_pool[IL_NPOOL][32]; static int il_pool_used;
+static void *il_pool[IL_NPOOL][128]; static int il_pool_used;
 void *realloc(void *p, size_t n) {
-	if (p || n > sizeof il_pool[0] || il_pool_used >= IL_NPOOL) PATH_END();
+	if (n > sizeof il_pool[0]) PATH_END();          /* more than 128 instructions in one block: outside the harness bounds */
+	if (p) return p;                                 /* growth in place: every row already has the maximum size */
+	if (il_pool_used >= IL_NPOOL) PATH_END();
 	return il_pool[il_pool_used++];
 }
 #endif
